@@ -74,3 +74,29 @@ PROPS = {
                 required_items={"c20_state_call_pairs": ["start:", "success:", "failure:", "cleanup:", "startup:"]},
                 rule=GEN + "at injection points every illegal call on every known job is issued and must return APIError with an identical full snapshot before/after; non-trivial: distinct (case, schedule) with injections; coverage: distinct (engine state, call kind) pairs rejected"),
 }
+
+
+# ---- PyO3 boundary replay (DESIGN.md section 3.11): a check that includes the workload must have observed it
+BRIDGE_NOTE = (" + PyO3 boundary replay: chains replayed call by call through the real extension module (lib.rs: PPG2Evaluator, "
+               "StrategyForPython with real files) and the real history_comparisons.py, every call result / query result / returned "
+               "history compared with the Rust binding's")
+_BRIDGE = {
+    "C03": {"pybridge_evaluations": 1000},
+    "C04": {"pybridge_evaluations": 1000},
+    "C06": {"pybridge_evaluations": 1000, "pybridge_faulty_evaluations": 300},
+    "C11": {"pybridge_evaluations": 1000, "pybridge_histories_equal": 1000},
+    "C15": {"pybridge_evaluations": 1000, "pybridge_comparison_judged_unaltered_although_textually_different": 1000},
+    "C16": {"pybridge_evaluations": 1000, "pybridge_ephemeral_changed_output_reported": 100},
+    "C20": {"pybridge_evaluations": 1000, "pybridge_misuse_calls": 10000},
+}
+for _p, _req in _BRIDGE.items():
+    PROPS[_p].setdefault("required_counters", {}).update(_req)
+    PROPS[_p]["rule"] += BRIDGE_NOTE
+    PROPS[_p].setdefault("assumptions", []).append(
+        "PyO3 replay: the job classes' compare_hashes is transcribed (new['hash'] == old.get('hash', '')); logging and traceback "
+        "helpers of history_comparisons.py are stubbed; the python runner itself is not executed")
+
+PROPS["C05"]["rule"] += (" + logical step bound: the signals the engine handles inside one call (hook counter) must stay below "
+                         "2000 + 400 x (jobs + dependencies); measured maximum on the unchanged tree: 3.4 x (jobs + dependencies)")
+PROPS["C19"]["rule"] += ("; each call is also held to the logical step bound 2000 + 400 x (jobs + dependencies) signals, so a super-linear "
+                         "blow-up is a verdict, not a watchdog timeout")
